@@ -71,6 +71,10 @@ type Sym struct {
 	RecvT    types.Type // symField: the static type of the expression the field was selected from
 	Origin   ast.Node   // symChoice from a multi-return helper: the call; alternatives of all results of that call are aligned
 	AltConds []*Sym     // symChoice from an if/else merge: the condition of each alternative as a value
+	// symChoice from a multi-return helper: the path conditions of each of the helper's returns; Under: on a value that
+	// was selected from such a choice (the others being infeasible here), the conditions under which the helper returned it
+	AltUnder [][]symCond
+	Under    []symCond
 	// symStruct values created while a function is walked: the path conditions and loop depth at that point, so that a
 	// later store into the value can be told unconditional (same conditions) from conditional
 	Born      []symCond
@@ -386,8 +390,9 @@ type loopFrame struct {
 }
 
 type symReturn struct {
-	conds string
-	vals  []*Sym
+	conds    string
+	vals     []*Sym
+	condSyms []symCond
 }
 
 func mkChoice(alts []string, vals []*Sym) *Sym {
@@ -590,16 +595,23 @@ func (w *symWalker) restrict(s *Sym) *Sym {
 	}
 	var vals []*Sym
 	var alts []string
+	last := -1
 	for i, p := range s.Parts {
 		if f[i] {
 			vals = append(vals, p)
 			alts = append(alts, s.Alts[i])
+			last = i
 		}
 	}
 	switch len(vals) {
 	case 0:
 		return s
 	case 1:
+		if last < len(s.AltUnder) && len(s.AltUnder[last]) > 0 && vals[0] != nil {
+			cp := *vals[0]
+			cp.Under = s.AltUnder[last]
+			return &cp
+		}
 		return vals[0]
 	}
 	if len(vals) == len(s.Parts) {
@@ -1270,6 +1282,9 @@ func (w *symWalker) call(x *ast.CallExpr) *Sym {
 						comps[j] = mkChoice(alts, vals)
 						if comps[j].K == symChoice {
 							comps[j].Origin = x
+							for _, rt := range sub.rets {
+								comps[j].AltUnder = append(comps[j].AltUnder, rt.condSyms)
+							}
 						}
 					}
 					if n == 1 {
@@ -1702,7 +1717,7 @@ func (w *symWalker) stmt(st ast.Stmt) (terminates bool) {
 		}
 		w.returned = res
 		w.nret++
-		w.rets = append(w.rets, symReturn{condsText(w.conds[min(w.baseCond, len(w.conds)):]), res})
+		w.rets = append(w.rets, symReturn{condsText(w.conds[min(w.baseCond, len(w.conds)):]), res, append([]symCond{}, w.conds[min(w.baseCond, len(w.conds)):]...)})
 		if w.OnReturn != nil {
 			w.OnReturn(w, x, res)
 		}
